@@ -214,6 +214,12 @@ def run(ctx):
         if f is exp:
             if len(rets) == 1 and rets[0].value is c:
                 ctx.inst("J1", f, rets[0], "returns the json.dumps text")
+            elif any(r.value is c for r in rets) and all(r.value is c or (isinstance(r.value, ast.Call) and isinstance(r.value.func, ast.Attribute)
+                                                          and r.value.func.attr == "encode") for r in rets):
+                # the text may also come from a json.JSONEncoder kept by the exporter: that this encoder is the one json.dumps would
+                # build for the current options is knowledge about the json module and about object state over calls
+                ctx.extra.setdefault("undecided", []).append("J1: JsonExporter.export also returns `%s`: an encoder object used in place of json.dumps is not followed" % next(
+                    norm(r.value) for r in rets if r.value is not c)[:50])
             else:
                 ctx.viol("J1", f, f.node, "export() does not return the json.dumps result unchanged", construct="export: return value")
     if len(set(sources.values())) > 1:
